@@ -33,6 +33,7 @@ import (
 	distrtypes "github.com/cosmos/cosmos-sdk/x/distribution/types"
 	govtypes "github.com/cosmos/cosmos-sdk/x/gov/types"
 	govv1 "github.com/cosmos/cosmos-sdk/x/gov/types/v1"
+	"github.com/cosmos/cosmos-sdk/x/group"
 	stakingtypes "github.com/cosmos/cosmos-sdk/x/staking/types"
 	"github.com/cosmos/ibc-go/v7/testing/mock"
 
@@ -46,7 +47,7 @@ import (
 const (
 	ChainID   = "verif-1"
 	StakeDen  = "stake"
-	VotingSec = 2                 // gov voting period in seconds
+	VotingSec = 2 // gov voting period in seconds
 )
 
 // T0Unix is model time 0 (unix seconds). A genesis may move it (GenSpec.T0): the wall-clock scenarios of C01 place the
@@ -81,6 +82,8 @@ type GenSpec struct {
 	DB string `json:"db,omitempty"`
 	// SkipInv: construct apps with crisis genesis-invariant assertion skipped
 	SkipInv bool `json:"skipInv,omitempty"`
+	// InvPeriod: node-local --inv-check-period (crisis asserts every registered invariant every n-th block; 0 = never)
+	InvPeriod uint `json:"invPeriod,omitempty"`
 }
 type EntGen struct {
 	Signers []string `json:"signers"`
@@ -128,7 +131,7 @@ func DefaultGenSpec() GenSpec {
 }
 
 type World struct {
-	AbsTime *time.Time
+	AbsTime      *time.Time
 	App          *app.App
 	DB           dbm.DB
 	dbDir        string
@@ -147,9 +150,14 @@ type World struct {
 	NextProposal uint64
 	// module addresses
 	EntAddr, StreamAddr, FeeAddr, DistrAddr, GovAddr sdk.AccAddress
+	// the group policy account "grp" (x/group, created in the first block; 32-byte derived address, no key)
+	GrpAddr sdk.AccAddress
 	// events of the last ABCI call (for mint/burn observation)
 	lastEvents []abci.Event
 }
+
+// IBCDen: a voucher denomination as ibc-transfer mints them
+const IBCDen = "ibc/27394FB092D2ECCD56123C74F36E4C1F926001CEADA9CA97EA622B25F41E5EB2"
 
 var valSeed = sha256.Sum256([]byte("verif-validator"))
 
@@ -210,7 +218,7 @@ func NewWorld(g GenSpec) (*World, error) {
 	w := &World{Gen: g, Accts: map[string]*Acct{}, ByAddr: map[string]string{}}
 	w.opts = simtestutil.AppOptionsMap{}
 	w.opts[flags.FlagHome] = app.DefaultNodeHome
-	w.opts[server.FlagInvCheckPeriod] = uint(0)
+	w.opts[server.FlagInvCheckPeriod] = g.InvPeriod
 	if g.SkipInv {
 		w.opts["x-crisis-skip-assert-invariants"] = true
 	}
@@ -264,8 +272,11 @@ func NewWorld(g GenSpec) (*World, error) {
 	w.App.Commit()
 	w.Height = 0
 	w.TimeMs = 0
-	// one empty block
+	// one block without transactions; the group of A1 and A2 and its policy account "grp" are created in it
 	w.BeginBlock(0)
+	if err := w.createGroup(); err != nil {
+		return nil, err
+	}
 	w.EndBlock()
 	w.Commit()
 	return w, nil
@@ -306,7 +317,9 @@ func (w *World) buildGenesis() (app.GenesisState, error) {
 	// two foreign denominations that sort before / after the native one ("aaa" < "nund" < "other" < "stake" < "zzz"):
 	// supply listings are paged across them (C17)
 	bals = append(bals, banktypes.Balance{Address: v.Addr.String(), Coins: sdk.NewCoins(sdk.NewInt64Coin(StakeDen, 1000000000),
-		sdk.NewInt64Coin("aaa", 7), sdk.NewInt64Coin("zzz", 9))})
+		sdk.NewInt64Coin("aaa", 7), sdk.NewInt64Coin("zzz", 9),
+		// ... and an IBC voucher denomination (upper-case hexadecimal hash: denominations are case-sensitive)
+		sdk.NewInt64Coin(IBCDen, 5))})
 	w.Names = append([]string{}, g.Accts...)
 	for _, n := range g.Accts {
 		ac := w.addAcct(n)
@@ -379,6 +392,37 @@ func (w *World) buildGenesis() (app.GenesisState, error) {
 	return gs, nil
 }
 
+// createGroup: one group (members A1 and A2, weight 1 each) with one policy account (threshold 1, no minimum
+// execution period), through the real x/group message server on the block's deliver state.
+func (w *World) createGroup() (err error) {
+	defer func() {
+		if r := recover(); r != nil {
+			err = fmt.Errorf("createGroup panic: %v", r)
+		}
+	}()
+	a1 := sdk.AccAddress(keyFor("A1").PubKey().Address())
+	a2 := sdk.AccAddress(keyFor("A2").PubKey().Address())
+	msg := &group.MsgCreateGroupWithPolicy{
+		Admin:              a1.String(),
+		Members:            []group.MemberRequest{{Address: a1.String(), Weight: "1"}, {Address: a2.String(), Weight: "1"}},
+		GroupPolicyAsAdmin: false,
+	}
+	if err := msg.SetDecisionPolicy(group.NewThresholdDecisionPolicy("1", 24*time.Hour, 0)); err != nil {
+		return err
+	}
+	ctx := w.App.NewContext(false, w.header())
+	res, err := w.App.GroupKeeper.CreateGroupWithPolicy(sdk.WrapSDKContext(ctx), msg)
+	if err != nil {
+		return fmt.Errorf("createGroup: %w", err)
+	}
+	w.GrpAddr, err = sdk.AccAddressFromBech32(res.GroupPolicyAddress)
+	if err != nil {
+		return err
+	}
+	w.ByAddr[w.GrpAddr.String()] = "grp"
+	return nil
+}
+
 // addrOrRaw maps a model account name to its bech32 address; unknown tokens are passed through
 // verbatim (used to build malformed parameter values).
 func (w *World) addrOrRaw(n string) string {
@@ -400,6 +444,8 @@ func (w *World) addrOrRaw(n string) string {
 		return w.FeeAddr.String()
 	case "gov":
 		return w.GovAddr.String()
+	case "grp":
+		return w.GrpAddr.String()
 	case "distr":
 		return w.DistrAddr.String()
 	}
@@ -408,6 +454,10 @@ func (w *World) addrOrRaw(n string) string {
 
 func (w *World) nameOf(addr string) string {
 	if n, ok := w.ByAddr[addr]; ok {
+		return n
+	}
+	// the all upper-case spelling of a bech32 address names the same account
+	if n, ok := w.ByAddr[strings.ToLower(addr)]; ok && strings.ToUpper(addr) == addr {
 		return n
 	}
 	return "?" + addr
